@@ -480,7 +480,9 @@ Section State.
                      n = n' /\ xi = xi';
     G_alias_src : forall n a xi, In (alias_e n a xi) (edges s) ->
                     exists nd ex nm k, get_node s n = Some nd /\ is_inst nd /\
-                                       u_inst_exports u (nitem nd) = Some ex /\ nth_error ex xi = Some (nm, k)
+                                       u_inst_exports u (nitem nd) = Some ex /\ nth_error ex xi = Some (nm, k);
+    (* [plug] defines no type: [export] never renames *)
+    G_nodef : forall n nd, get_node s n = Some nd -> nk nd <> NDef
   }.
 
   (** nodes are only added; the static attributes of a node never change *)
@@ -527,6 +529,8 @@ Section State.
     - intros n n' a xi xi'. rewrite Ee. apply (G_alias_uniq s g).
     - intros n a xi I. rewrite Ee in I. destruct (G_alias_src s g n a xi I) as (x & ex & nm & k & G & R).
       exists x, ex, nm, k. split; [apply OLD; exact G|exact R].
+    - intros n x Gx. rewrite GN in Gx. destruct (n =? length (nodes s)); [injection Gx as <-; discriminate|].
+      apply (G_nodef s g n x Gx).
   Qed.
 
   (** ** alias_instance_export *)
@@ -588,6 +592,8 @@ Section State.
           rewrite Nat.sub_0_r in N. exact N.
         * rewrite Ee in I1. destruct (G_alias_src s g _ _ _ I1) as (x & ex' & nm & k' & Gx & R).
           exists x, ex', nm, k'. split; [change (get_node s1 n1 = Some x); apply OLD; exact Gx|exact R].
+      + intros m x Gx. change (get_node s1 m = Some x) in Gx. rewrite GN in Gx.
+        destruct (m =? len); [injection Gx as <-; discriminate|]. apply (G_nodef s g m x Gx).
   Qed.
 
   (** ** set_instantiation_argument on the socket *)
@@ -686,6 +692,8 @@ Section State.
     - intros n1 a0 x1 [I1|I1]; [discriminate|].
       destruct (G_alias_src s g _ _ _ I1) as (x & ex & nm & k & Gx & Ix & R).
       destruct (np _ _ Gx) as (x' & Gx' & It & _ & Is). exists x', ex, nm, k. rewrite It. auto.
+    - intros x xd Gx. rewrite GN in Gx. destruct (x =? sock); [injection Gx as <-; discriminate|].
+      apply (G_nodef s g x xd Gx).
   Qed.
 
   (** ** export *)
@@ -697,7 +705,10 @@ Section State.
                                                                   nname := nname nd; nexport := Some x |}
                                           else get_node s y).
   Proof.
-    intros g G A Ok. unfold export_. rewrite A, Ok. cbn [negb]. unfold update_node. rewrite G.
+    intros g G A Ok.
+    assert (ER : exports_renamed s a = exports s).
+    { unfold exports_renamed. rewrite G. pose proof (G_nodef s g a nd G) as ND. destruct (nk nd); auto. now contradiction ND. }
+    unfold export_. rewrite A, Ok. cbn [negb]. unfold update_node. rewrite G, ER.
     set (nd' := {| nk := nk nd; npkg := npkg nd; nitem := nitem nd; nname := nname nd; nexport := Some x |}).
     set (s1 := set_node s a (Some nd')).
     exists (with_maps s1 (imports s1) (exports s1 ++ [(x, a)]) (defined s1)). split; [reflexivity|].
@@ -725,6 +736,8 @@ Section State.
     - apply (G_alias_uniq s g).
     - intros n1 a0 x1 I1. destruct (G_alias_src s g _ _ _ I1) as (y & ex & nm & k & Gy & Iy & R).
       destruct (np _ _ Gy) as (y' & Gy' & It & _ & Is). exists y', ex, nm, k. rewrite It. auto.
+    - intros y yd Gy. rewrite GN in Gy. destruct (y =? a); [injection Gy as <-; cbn [nd' nk]; apply (G_nodef s g a nd G)|].
+      apply (G_nodef s g y yd Gy).
   Qed.
 
   (** ** one plug: the [wire] loop *)
@@ -1101,11 +1114,12 @@ Section State.
     (forall a i, In (arg_e a i) (edges s') <-> In (arg_e a i) (edges s)) /\
     (forall n nd', get_node s' n = Some nd' -> length (nodes s) <= n -> npkg nd' = Some sp) /\
     (forall x, In x names -> exists a xi k, alist_get N.eqb (exports s') x = Some a /\
-                                            In (alias_e sock a xi) (edges s') /\ nth_error sx xi = Some (x, k)).
+                                            In (alias_e sock a xi) (edges s') /\ nth_error sx xi = Some (x, k)) /\
+    (forall z b, alist_get N.eqb (exports s) z = Some b -> alist_get N.eqb (exports s') z = Some b).
   Proof.
     induction names as [|x names IH]; intros s s' r g Hs ND Hn W.
     - cbn in W. injection W as <- <-. split; [reflexivity|]. split; [exact g|]. split; [apply NP_refl|].
-      split; [apply incl_refl|]. split; [tauto|]. split; [|intros x []].
+      split; [apply incl_refl|]. split; [tauto|]. split; [|split; [intros x []|auto]].
       intros n nd G L. apply get_node_lt in G. lia.
     - inversion ND as [|? ? NIx ND']; subst. destruct (Hn x (or_introl eq_refl)) as (Ix & Okx & Ax).
       destruct (G_sock s g) as (nd & sat & Gs & Ks & Ps & _). destruct Hs as (nd0 & Gs0 & It0).
@@ -1126,12 +1140,12 @@ Section State.
       assert (Hn3 : forall y, In y names -> In y (map fst sx) /\ u_export_name_ok u y = true /\ alist_get N.eqb (exports s3) y = None).
       { intros y Iy. destruct (Hn y (or_intror Iy)) as (A & B & C). split; [exact A|]. split; [exact B|].
         rewrite Ex3, alist_get_app_one, X2, C. destruct (N.eqb_spec x y) as [->|NE]; [contradiction|reflexivity]. }
-      destruct (IH s3 s' r g3 Hs3 ND' Hn3 W) as (-> & g' & NP' & Inc' & Args' & New' & Ex').
+      destruct (IH s3 s' r g3 Hs3 ND' Hn3 W) as (-> & g' & NP' & Inc' & Args' & New' & Ex' & Mono').
       split; [reflexivity|]. split; [exact g'|].
       split; [eapply NP_trans; [exact NP2|eapply NP_trans; [exact NP3|exact NP']]|].
       split; [eapply incl_tran; [exact Inc2|]; rewrite <- Ee3; exact Inc'|].
       split; [intros a0 i; rewrite Args', Ee3; apply Args2|].
-      split.
+      split; [|split].
       + intros n nd' G L. destruct (le_lt_dec (length (nodes s3)) n) as [Ge|Lt]; [apply (New' n nd' G Ge)|].
         rewrite El3 in Lt. destruct (G_live s2 g2 n Lt) as (n2 & G2).
         destruct (NP3 _ _ G2) as (n3 & G3 & _ & P3 & _). destruct (NP' _ _ G3) as (n4 & G4 & _ & P4 & _).
@@ -1139,28 +1153,8 @@ Section State.
         destruct (New2 n n2 G2 L) as (q & Q1 & Q2). congruence.
       + intros y [<-|Iy]; [|apply Ex'; exact Iy].
         exists a, xi, k. split; [|split; [apply Inc'; rewrite Ee3; exact Ia|exact Nx]].
-        (* the export entry of [x] survives the later exports *)
-        assert (Keep : forall names0 t t' r0, reexport u t sock names0 = (t', r0) -> r0 = None ->
-                        alist_get N.eqb (exports t) x = Some a -> alist_get N.eqb (exports t') x = Some a).
-        { clear. induction names0 as [|y ns IHn]; intros t t' r0 W R A; cbn in W.
-          - injection W as <- _. exact A.
-          - destruct (alias u t sock y) as [t1 [| a1 | | |]] eqn:EA; try (injection W as _ <-; discriminate).
-            assert (exports t1 = exports t) as X1.
-            { unfold alias in EA. destruct (get_node t sock); [|injection EA as <- _; reflexivity].
-              destruct (u_inst_exports u (nitem n)); [|injection EA as <- _; reflexivity].
-              destruct (get_full l y 0) as [[? ?]|]; [|injection EA as <- _; reflexivity].
-              destruct (find _ _); [injection EA as <- _; reflexivity|].
-              destruct (add_node t _) as [t2 idx] eqn:AN. injection EA as <- _. cbn.
-              unfold add_node in AN. destruct (free_nodes t); injection AN as <- _; reflexivity. }
-            destruct (export_ u t1 a1 y) as [t2 [| | | |]] eqn:EX; try (injection W as _ <-; discriminate).
-            apply (IHn t2 t' r0 W R). unfold export_ in EX. rewrite X1 in EX.
-            destruct (alist_get N.eqb (exports t) y) eqn:Ay; [injection EX as <-; discriminate|].
-            destruct (negb (u_export_name_ok u y)); [injection EX as <-; discriminate|].
-            destruct (update_node t1 a1 _) as [t3|] eqn:UN; [|injection EX as <-; discriminate].
-            injection EX as <-. cbn [with_maps exports]. rewrite alist_get_app_one.
-            unfold update_node in UN. destruct (get_node t1 a1); [|discriminate]. injection UN as <-. cbn [set_node exports].
-            rewrite X1, A. reflexivity. }
-        apply (Keep names s3 s' None W eq_refl). rewrite Ex3, alist_get_app_one, X2, Ax, N.eqb_refl. reflexivity.
+        apply Mono'. rewrite Ex3, alist_get_app_one, X2, Ax, N.eqb_refl. reflexivity.
+      + intros z b Az. apply Mono'. rewrite Ex3, alist_get_app_one, X2, Az. reflexivity.
   Qed.
 
   (** ** what the queries say in a good state *)
@@ -1286,7 +1280,8 @@ Proof.
       - cbn [s0 edges]. rewrite Be. intros a i [].
       - cbn [s0 edges]. rewrite Be. intros a a' i [].
       - cbn [s0 edges]. rewrite Be. intros n n' a xi xi' [].
-      - cbn [s0 edges]. rewrite Be. intros n a xi []. }
+      - cbn [s0 edges]. rewrite Be. intros n a xi [].
+      - intros [|n] x Gx; [injection Gx as <-; discriminate|]. destruct n; discriminate. }
     assert (E0 : edges s0 = []) by exact Be.
     assert (PRs : Forall2 (PR u PD) plugs pls).
     { clear - F2. induction F2 as [|p x ps xs (pd & A & B) _ IH]; constructor; [exists pd; auto|exact IH]. }
@@ -1345,7 +1340,7 @@ Proof.
         { intros x Ix. split; [exact Ix|]. split; [|rewrite X1; reflexivity].
           apply in_map_iff in Ix. destruct Ix as (y & <- & Iy). rewrite Forall_forall in OKx. apply OKx. exact Iy. }
         destruct (reexport_gen u sock socket sd PD text sx Xsd NDx (map fst sx) s1 s2 r2 g1 Hs1 NDx Hn RX)
-          as (-> & g2 & NP2 & Inc2 & Args2 & New2 & Ex2).
+          as (-> & g2 & NP2 & Inc2 & Args2 & New2 & Ex2 & _).
         right. right. split; [reflexivity|]. split; [exact LE1|].
         assert (I0 : In (m0, a0) (get_args u s1 0)) by (rewrite GA; left; reflexivity).
         apply (get_args_in u sock socket sd PD PDsp text s1 m0 a0 g1) in I0. destruct I0 as (im0 & t0 & Ia0 & N0).
